@@ -105,8 +105,8 @@ macro_rules | `(tactic| np_spec) => `(tactic| exact np_saveAcct _)
 
 /-- index bound from the length guards in context -/
 macro "np_bound" : tactic => `(tactic|
-  (simp only [decide_eq_false_iff_not, Nat.not_lt, Nat.not_le, ne_eq, Decidable.not_not, decide_not, Bool.not_eq_eq_eq_not,
-     Bool.not_false, Bool.not_true, decide_eq_true_eq, gt_iff_lt, Bool.and_eq_true, Bool.or_eq_true] at *; omega))
+  ((try simp only [decide_eq_false_iff_not, Nat.not_lt, Nat.not_le, ne_eq, Decidable.not_not, decide_not, Bool.not_eq_eq_eq_not,
+     Bool.not_false, Bool.not_true, decide_eq_true_eq, gt_iff_lt, Bool.and_eq_true, Bool.or_eq_true] at *); omega))
 
 /-- one step: guards, argument reads (bound from context), unconditional helpers (result forgotten) -/
 macro "np_step" : tactic => `(tactic| with_reducible first
@@ -123,6 +123,19 @@ macro "np_step" : tactic => `(tactic| with_reducible first
   | (apply NP.bind_any (by np_spec); intro _ _)
   | (show NP _ _; dsimp only))
 macro "np" : tactic => `(tactic| repeat' np_step)
+
+/-- guards and argument reads only: stops at every helper call -/
+macro "npg_step" : tactic => `(tactic| with_reducible first
+  | exact NP.pure
+  | exact NP.fail
+  | exact NP.guardE
+  | (apply NP.bind_guardE; intro _)
+  | (apply NP.bind_assoc)
+  | (apply NP.bind_pure)
+  | (apply NP.bind_argAt (by np_bound); intro _ _)
+  | (exact NP.argAt (by np_bound))
+  | (show NP _ _; dsimp only))
+macro "npg" : tactic => `(tactic| repeat' npg_step)
 
 theorem np_writeKey (a k v : Bytes) (c : Ctx) : NP (writeKey a k v) c := by
   unfold writeKey
